@@ -18,6 +18,11 @@ def _params():
                         # shutdown(cancel_futures=True) over a delegate that (like the library's own
                         # executors) only forwards the flag: the sweep must still cover pending futures
                         out.append(dict(nsub=nsub, per=per, pre=pre, resub=resub, kw=(("cancel_futures", True),)))
+    # a delegate whose shutdown(wait=True) runs whatever is still queued (like joining a thread pool):
+    # the sweep has to come before the delegate's shutdown, or pending futures run instead of being cancelled
+    for nsub in (1, 2):
+        for pre in ("pending", "running"):
+            out.append(dict(nsub=nsub, per=1, pre=pre, resub=False, kw=(), drain=True))
     return out
 
 
@@ -25,6 +30,7 @@ def _params():
          params=_params())
 def race(mc, p):
     base = ManualExecutor(mc, mode="manual", honour_cancel_futures=False)
+    base.drain_on_shutdown = bool(p.get("drain"))
     ex = CancelOnShutdownExecutor(base)
     accepted = []      # (label, seq at which submit returned)
 
@@ -86,6 +92,10 @@ def _o(x):
     subs = [e for e in log if e["kind"] == "base.submit"]
     bs = [e for e in log if e["kind"] == "base.shutdown"]
     x.require(len(bs) == 1 and bs[0]["seq"] < s_ret, "base-shutdown-count", n=len(bs))
+    # nothing that was still queued when the sweep began may be *started* by the shutdown itself
+    for e in log:
+        if e["kind"] == "base.start" and e["th"] == "shut":
+            x.require(False, "ran-instead-of-cancelled", detail="delegate item %d was started by shutdown()" % e["i"])
     for e in subs:
         lab = "b%d" % e["i"]
         cancels = [c for c in log if c["kind"] == "probe.cancel" and c["f"] == lab and c["th"] == "shut"
@@ -104,8 +114,77 @@ def _o(x):
                   after_return=e["seq"] > s_ret)
 
 
+
+
+# ------------------------------------------------------------------ shutdown() from inside a callable
+def _nparams():
+    out = []
+    for second in (False, True):          # a second submission from another thread
+        for when in ("in_callable", "in_flat_fn"):
+            out.append(dict(second=second, when=when))
+    return out
+
+
+@harness("c10.nested", prop="C10", traced=("cancel_on_shutdown", "helpers"), horizon=50, params=_nparams())
+def nested(mc, p):
+    """The delegate runs user code inside submit() and returns a future that is still pending
+    (sync executor + flat_map returning a pending future).  That user code calls shutdown() on the
+    cancel-on-shutdown executor: the submit() in progress must either be refused or return a future
+    that the sweep covered."""
+    from mc.kit import ProbeFuture
+    pend = {}
+
+    def flat(v):
+        if p["when"] == "in_flat_fn" and v == "s0":
+            mc.call("shutdown", ex.shutdown, False)
+        pend[v] = ProbeFuture(mc, "inner-" + v)
+        return pend[v]
+    inner = Executors.sync().with_flat_map(flat)
+    ex = CancelOnShutdownExecutor(inner)
+    got = {}
+
+    def fn(tag):
+        if p["when"] == "in_callable" and tag == "s0":
+            mc.call("shutdown", ex.shutdown, False)
+        return tag
+
+    def sub(tag):
+        def run():
+            try:
+                got[tag] = mc.call("submit:" + tag, ex.submit, fn, tag)
+            except RuntimeError:
+                got[tag] = None
+        return run
+    mc.spawn(sub("s0"), "sub0")
+    if p["second"]:
+        mc.spawn(sub("s1"), "sub1")
+    mc.sleep(5)
+    mc.observe(res=tuple((t, None if f is None else snapshot(f)[0]) for t, f in sorted(got.items())),
+               inner=tuple((t, f._state, f.cancel_calls) for t, f in sorted(pend.items())))
+
+
+@oracle("c10.nested")
+def _on(x):
+    if x.end == "deadlock":
+        return                      # left to C04
+    if not x.require(x.end == "done" and "res" in x.obs, "bad-ending", end=x.end):
+        return
+    rets = [e for e in x.log if e["kind"] == "ret" and e["op"] == "shutdown"]
+    if not x.require(len(rets) == 1, "shutdown-did-not-return"):
+        return
+    inner = dict((t, (st, n)) for t, st, n in x.obs["inner"])
+    for tag, state in x.obs["res"]:
+        if state is None:
+            continue                # refused: fine
+        # accepted: the future handed out is pending for ever unless somebody cancels it; the sweep must have
+        if state == "pending":
+            x.require(inner.get(tag, ("?", 0))[1] >= 1, "escaped-sweep", nested=True,
+                      detail="submit(%s) returned a pending future that shutdown() never cancelled: %r" % (tag, x.obs))
+
+
 PLAN = {
-    "quick": [dict(harness="c10.race", bound=3)],
+    "quick": [dict(harness="c10.race", bound=3), dict(harness="c10.nested", bound=2)],
     "thorough": [dict(harness="c10.race", bound=4, select=lambda p: p["nsub"] == 1 and p["per"] == 1),
-                 dict(harness="c10.race", bound=3), dict(harness="c10.race", bound=2, order="desc")],
+                 dict(harness="c10.race", bound=3), dict(harness="c10.race", bound=2, order="desc"),
+                 dict(harness="c10.nested", bound=3)],
 }
